@@ -20,6 +20,10 @@ pub struct Case {
     pub b: G,
     pub xf: Xf,
     pub vsel: u64,
+    /// when present the case is the segment near[0]-near[1] and the point near[2] in raw f64 (a point on, or within a few
+    /// units in the last place of, a long or large-magnitude segment); `a`, `b`, `xf` are then ignored
+    #[serde(default)]
+    pub near: Option<[(f64, f64); 3]>,
     #[serde(skip)]
     pub trusted: bool,
 }
@@ -67,9 +71,17 @@ impl Property for C07 {
     type Case = Case;
     const ID: &'static str = "C07";
     fn strategy(_tier: Tier) -> BoxedStrategy<Case> {
-        (pair_strategy(), xf_strategy(), any::<u64>())
-            .prop_filter_map("empty operand", |(Pair { a, b }, xf, vsel)| if a.is_empty() || b.is_empty() { None } else { Some(Case { a, b, xf, vsel, trusted: true }) })
-            .boxed()
+        let general = (pair_strategy(), xf_strategy(), any::<u64>())
+            .prop_filter_map("empty operand", |(Pair { a, b }, xf, vsel)| if a.is_empty() || b.is_empty() { None } else { Some(Case { a, b, xf, vsel, near: None, trusted: true }) });
+        // 1 case in 12: the zero / non-zero clause on ill-conditioned input (C03's triples: points on or an ulp off a segment),
+        // and (1 in 12) pairs with an EMPTY operand (no value is specified for them, but no call may panic and the two operand
+        // orders must agree)
+        let near = crate::props::c03::triple_strategy().prop_map(|t| Case { a: G::MultiPoint(vec![]), b: G::MultiPoint(vec![]), xf: Xf::ID, vsel: 0, near: Some(t), trusted: true });
+        let with_empty = (pair_strategy(), any::<u64>()).prop_map(|(Pair { a, b }, vsel)| {
+            let e = match vsel % 5 { 0 => G::Polygon(crate::refgeom::Poly::new(vec![], vec![])), 1 => G::LineString(vec![]), 2 => G::MultiPolygon(vec![]), 3 => G::MultiPoint(vec![]), _ => G::Coll(vec![]) };
+            if vsel & 8 == 0 { Case { a, b: e, xf: Xf::ID, vsel, near: None, trusted: true } } else { Case { a: e, b, xf: Xf::ID, vsel, near: None, trusted: true } }
+        });
+        prop_oneof![10 => general.boxed(), 1 => near.boxed(), 1 => with_empty.boxed()].boxed()
     }
     fn quota(tier: Tier) -> u64 {
         tier.pick(1_200_000, 24_000_000)
@@ -90,8 +102,29 @@ impl Property for C07 {
         json!({"a": wkt(&c.a), "b": wkt(&c.b), "xf": c.xf, "vsel": c.vsel})
     }
     fn check(c: &Case, obs: &mut Obs) {
+        if let Some(t) = &c.near {
+            check_near(t, obs);
+            return;
+        }
         if c.a.is_empty() || c.b.is_empty() {
-            obs.label("skipped:empty-operand");
+            // no distance is specified for an empty operand; the calls must not panic and must agree in both orders
+            obs.label("empty-operand");
+            let (ga, gb) = (to_geo(&c.a, &c.xf), to_geo(&c.b, &c.xf));
+            let (ta, tb) = (c.a.type_name(), c.b.type_name());
+            let ctx = || format!("A={} B={}", wkt(&c.a), wkt(&c.b));
+            match (euclid(&ga, &gb), euclid(&gb, &ga), guard(std::panic::AssertUnwindSafe(|| Euclidean.distance(&ga, &gb)))) {
+                (Ok(d1), Ok(d2), Ok(d3)) => {
+                    obs.cmp();
+                    obs.expect(d1 == d2 && d1 == d3, &format!("distance:{ta}/{tb}|empty-operand|order-or-wrapper-dependent"), || format!("{d1} / {d2} / {d3}; {}", ctx()));
+                }
+                (r1, r2, r3) => {
+                    for r in [r1, r2, r3] {
+                        if let Err(p) = r {
+                            obs.fail(format!("distance:{ta}/{tb}|empty-operand|panic|{}", p.site()), format!("{} {}", p, ctx()));
+                        }
+                    }
+                }
+            }
             return;
         }
         if !c.trusted && !(in_relate_domain(&c.a) && in_relate_domain(&c.b)) {
@@ -169,4 +202,76 @@ impl Property for C07 {
             judge(format!("distance:{}/{}", va.type_name(), vb.type_name()), euclid(&gva, &gvb), obs);
         }
     }
+}
+
+
+/// Point against a segment (as Line, one-segment LineString, MultiLineString, through the enum) in raw f64: exactly zero
+/// precisely when the point is on the segment (exact arithmetic), the same value however the segment is typed.
+fn check_near(t: &[(f64, f64); 3], obs: &mut Obs) {
+    use crate::exact::big::orient_f64;
+    obs.label("sub:near-segment");
+    let in_range = |v: f64| v == 0.0 || (v.is_finite() && v.abs() >= 2f64.powi(-400) && v.abs() <= 2f64.powi(400));
+    if !t.iter().all(|p| in_range(p.0) && in_range(p.1)) {
+        obs.label("skipped:out-of-domain");
+        return;
+    }
+    let (a, b, p) = (t[0], t[1], t[2]);
+    let on = orient_f64(a, b, p) == 0 && p.0 >= a.0.min(b.0) && p.0 <= a.0.max(b.0) && p.1 >= a.1.min(b.1) && p.1 <= a.1.max(b.1);
+    // accurate estimate of the true distance (the determinant comes from the adaptive predicate, hence is accurate)
+    let (dx, dy) = (b.0 - a.0, b.1 - a.1);
+    let len = dx.hypot(dy);
+    let det = robust_det(a, b, p);
+    let tpar = if len > 0.0 { ((p.0 - a.0) * dx + (p.1 - a.1) * dy) / (len * len) } else { 0.0 };
+    let est = if len == 0.0 || tpar <= 0.0 { (p.0 - a.0).hypot(p.1 - a.1) } else if tpar >= 1.0 { (p.0 - b.0).hypot(p.1 - b.1) } else { det.abs() / len };
+    let extent = [a, b, p].iter().fold(0.0f64, |m, q| m.max(q.0.abs()).max(q.1.abs())).max(len);
+    if on {
+        obs.label("near:on-the-segment");
+        obs.nontrivial();
+    } else if est <= 8.0 * f64::EPSILON * extent {
+        obs.label("near:within-rounding-of-the-segment");
+        obs.nontrivial();
+    }
+    let co = |q: (f64, f64)| geo::Coord { x: q.0, y: q.1 };
+    let pt = geo::Point(co(p));
+    let line = geo::Line::new(co(a), co(b));
+    let ls = geo::LineString::new(vec![co(a), co(b)]);
+    let mls = geo::MultiLineString::new(vec![ls.clone()]);
+    let calls: Vec<(&str, Result<f64, crate::engine::PanicInfo>)> = vec![
+        ("Point/Line", guard(std::panic::AssertUnwindSafe(|| Euclidean.distance(&pt, &line)))),
+        ("Line/Point", guard(std::panic::AssertUnwindSafe(|| Euclidean.distance(&line, &pt)))),
+        ("Point/LineString", guard(std::panic::AssertUnwindSafe(|| Euclidean.distance(&pt, &ls)))),
+        ("LineString/Point", guard(std::panic::AssertUnwindSafe(|| Euclidean.distance(&ls, &pt)))),
+        ("Point/MultiLineString", guard(std::panic::AssertUnwindSafe(|| Euclidean.distance(&pt, &mls)))),
+        ("Geometry[Point]/Geometry[LineString]", guard(std::panic::AssertUnwindSafe(|| Euclidean.distance(&geo::Geometry::Point(pt), &geo::Geometry::LineString(ls.clone()))))),
+    ];
+    let ctx = || format!("a={:?} b={:?} p={:?} on={on} true distance ~ {est}", a, b, p);
+    for (name, r) in calls {
+        match r {
+            Ok(d) => {
+                obs.cmp();
+                if on {
+                    if d != 0.0 {
+                        let class = if d <= 8.0 * f64::EPSILON * extent { "within-rounding-of-the-extent" } else { "clearly-nonzero" };
+                        obs.fail(format!("distance:{name}|nonzero-for-intersecting|near-segment|{class}"), format!("got {d}; {}", ctx()));
+                    }
+                } else if d == 0.0 {
+                    // input class for the known-findings matcher: how far is the point really?
+                    let class = if est <= 8.0 * f64::EPSILON * extent { "within-rounding-of-the-extent" } else { "clearly-apart" };
+                    obs.fail(format!("distance:{name}|zero-for-disjoint|near-segment|{class}"), format!("got 0; {}", ctx()));
+                } else {
+                    obs.expect((d - est).abs() <= 1e-9 * est + 8.0 * f64::EPSILON * extent, &format!("distance:{name}|value|near-segment"), || format!("got {d}; {}", ctx()));
+                }
+            }
+            Err(pn) => obs.fail(format!("distance:{name}|panic|{}", pn.site()), format!("{} {}", pn, ctx())),
+        }
+    }
+}
+
+/// the orientation determinant, evaluated accurately: exact sign from the dyadic oracle, magnitude from a compensated product
+fn robust_det(a: (f64, f64), b: (f64, f64), c: (f64, f64)) -> f64 {
+    use crate::exact::big::Dy;
+    let d = |v: f64| Dy::from_f64(v);
+    let l = d(b.0).sub(&d(a.0)).mul(&d(c.1).sub(&d(a.1)));
+    let r = d(b.1).sub(&d(a.1)).mul(&d(c.0).sub(&d(a.0)));
+    l.sub(&r).to_f64()
 }
